@@ -7,5 +7,7 @@ MCOuts == {"ok", "e1", "e2"}
 Keys1 == {1}
 Keys4 == {1, 2, 4}
 Inv == AttemptsBounded /\ BudgetNonNegative
+\* transition tour: every transition of the (small) model, printed with the level of its source state
+TourDump == PrintT(<<"EDGE", TLCGet("level"), ToJson([f |-> view, t |-> view', cfg |-> cfg, ev |-> ev'])>>)
 GenPrint == PrintT(<<"GEN", TLCGet("level"), ToJson([cfg |-> cfg, ev |-> ev])>>)
 =============================================================================
